@@ -138,6 +138,16 @@ CHECKS = {
             'workbooks (function corpus, operators, criteria/lookups) evaluated cell by cell on a generated class and on a '
             'hand-written subclass of the base carrying the same cell members, with and without overrides',
             'trusted: nothing but equality of the two outcomes (neither copy is the oracle)', 'DESIGN.md section 2 C20'),
+    'C06': ('bounded-exhaustive enumeration of adversarial workbooks (token soups, truncated formulas, constant types, special '
+            'characters in texts and titles, nesting and dependency-chain sweeps) through the real Parser with a per-case time '
+            'budget, judged by outcome class and by structural checks of the generated class',
+            'every token sequence up to length 3 (4 thorough) over 16 tokens and length 4 (5) over 11 tokens as the only formula of '
+            'a workbook and next to good cells; every prefix and single-character deletion of every corpus formula; 60 constant '
+            'kinds and odd formulas; all strings up to length 2 (3) over 14 special characters as text constants; all legal sheet '
+            'titles up to length 2 (3) over 11 special characters in three layouts; 12 nesting shapes at depths 1..20,32,64 '
+            '(1..40..300) and dependency chains of up to 1000 (5000) cells in three directions; every accepted workbook: compiles, '
+            'instantiates, titles, sizes, one member per cell, constants unchanged, file vs class object (subset)',
+            'trusted: openpyxl writer; 5 s (20 s) per-case budget stands for "terminates"', 'DESIGN.md section 2 C06'),
 }
 
 PENDING_REASON = 'check not built yet in this session; see DESIGN.md section 2 for the planned model-checking approach'
